@@ -146,6 +146,14 @@ ADDED = {
  "C18": " Streams handed to the kvgraph driver itself that mix valid and invalid elements (invalid ones carrying stored ids).",
 }
 ADDED["C06"] += " Every ordered pair of canonical statements and every condition code x value kind x key kind, systematically."
+ADDED["C01"] += " Ids and labels that no element has, including the blank string, in hasId/hasLabel/V()/E()/_gid conditions; mark templates that read the whole property map or identity fields only."
+ADDED["C02"] += " TestMarkReads: producer x move after the mark x reader (render, has, hasKey, distinct) x reference form ($a._data, $a.k, $a._gid, ...) enumerated on generated graphs and both backends; blank and absent ids in leading filters."
+ADDED["C04"] += " After every crash point the server goes on: AddGraph is retried for every graph name and a vertex and an edge with new labels written after the reopen must be reachable through the label scan and the label listings."
+ADDED["C07"] += " Traversals with 2, 5, 9 and 12 distinct() steps (each holds a temporary store for the whole run)."
+ADDED["C10"] = " TestVolumes: 1..50001 keys under one prefix around round block sizes (9998..10001, 16384, 20001, 32769, ...), neighbours and sibling prefixes, bulk fill, sub-prefix and whole-prefix deletes, complete forward/reverse walks and point probes against the model on all four drivers."
+ADDED["C12"] += " One program in six ends in limit(n) behind the loop: exactly min(n, N) of the loop's rows, and the stream closes."
+ADDED["C16"] = " Marker-byte cases: every identifier role x byte next to the key separator or at the end of the control range (0x01, 0x02, 0x1f, 0x7f) x position (trailing, leading, alone), with a replacement of the written edge."
+ADDED["C20"] += " The client string as an id while a label filter is appended to the same statement, and in both positions at once; format-verb strings."
 for _k, _v in ADDED.items():
     CHECKS[_k]["text"] += _v
 NOT_YET = "check not built yet in this session (planned in DESIGN.md §3); not claimed"
